@@ -343,6 +343,9 @@ func runC17(c *eng.Ctx) {
 	// the master key is read from the environment only in the constructor
 	c.WhoMayCall("os.Getenv in server/encryption", []string{"os.Getenv"}, append([]string{"server/encryption.NewLocalEncryptionHandler"}, nonEncryptionGetenvCallers(c)...), []string{"server/encryption.NewLocalEncryptionHandler"})
 	c.Floor(10)
+	c.Rule("R16.8", "K6")
+	ruleStreamConfigPlumbing(c, "Encryption")
+	c.Floor(2)
 }
 
 // callers of os.Getenv outside server/encryption are not this rule's business; list them so that only new callers
